@@ -45,6 +45,21 @@ Proof.
 Qed.
 Print Assumptions C03_sync_no_success_without_commit.
 
+From TS Require Import model.Barrier proofs.BarrierProofs proofs.BarrierInst.
+
+(* ASYNCHRONOUS take: any fault in a snapshot's plan (some rank's payload I/O fails, or the leader's metadata
+   write fails) - in every reachable state no rank's wait() has returned normally, every rank that terminated has
+   raised, and the metadata is not written.  All world sizes, interleavings, histories with distinct prefixes. *)
+Theorem C03_async_error_reaches_everyone : forall st0 h sch i x,
+  fresh st0 h -> distinct_prefixes h ->
+  nth_error (g_insts (grun (ginit st0 h) sch)) i = Some x ->
+  has_fault x ->
+  (forall r, (r < i_W x)%nat -> i_pcs x r <> PDone) /\
+  (forall r, (r < i_W x)%nat -> terminated (i_pcs x r) = true -> i_pcs x r = PRaised) /\
+  i_meta x = false.
+Proof. exact error_reaches_everyone. Qed.
+Print Assumptions C03_async_error_reaches_everyone.
+
 (* Non-vacuity: rank 1's only payload write fails; rank 0 finishes and waits in the barrier for ever: nobody
    returns, no metadata.  And: rank 0's metadata write fails; rank 1 is held in the second barrier. *)
 Example C03_example_payload_failure :
